@@ -351,6 +351,9 @@ def make_fd(N, order, geom):
     return aurel.FiniteDifference(param, fd_order=order, verbose=False)
 
 
+PRE_READ = [False]          # toggled per exact solution by case_run (same value at both resolutions)
+
+
 def run_code(ex, N, order, t0, vacuum, Lam, geom):
     import aurel
     fd = make_fd(N, order, geom)
@@ -365,6 +368,11 @@ def run_code(ex, N, order, t0, vacuum, Lam, geom):
     E["Tdown4"] = (einstein(E["g4"], E["dg4"], E["ddg4"]) + Lam * E["g4"]) / KAPPA
     if not vacuum:
         rel.data["Tdown4"] = E["Tdown4"]
+    if PRE_READ[0]:
+        # a user looks at its inputs before freezing them (e.g. `assert (rel['gammadet'] > 0).all()`): reading an
+        # input is not a calculation and must not weaken the protection freeze_data() gives it afterwards
+        for k in ("alpha", "gammadown3", "Kdown3", "betaup3"):
+            rel[k]
     rel.freeze_data()
     return rel, E, fd
 
@@ -423,6 +431,8 @@ def case_run(ctx, spec):
     t0 = float(rng.uniform(0.0, 1.0))
     ex = Exact(a, b, g)
     out = []
+    PRE_READ[0] = bool(spec["gen_seed"] % 2)
+    ctx.count("solutions_with_inputs_read_before_freeze", int(PRE_READ[0]))
     for order in spec["orders"]:
         N1, N2 = spec["N"], 2 * spec["N"]
         res = {}
